@@ -38,6 +38,17 @@ enum Op {
     Sweep,
     Snap,
     Render,
+    Remove(char, u32),      // Registry::delete_<kind> / retain_<kind>s behind Recency's back
+    Clear,                  // Registry::clear
+    OSnap(u32, char, u32),  // overlapping observer: snapshot of the handle now ...
+    ODecide(u32),           // ... get_generation + should_store later
+}
+
+/// The handle an overlapping observer holds.
+enum Held {
+    C(metrics_util::registry::Generational<std::sync::Arc<metrics::atomics::AtomicU64>>),
+    G(metrics_util::registry::Generational<std::sync::Arc<metrics::atomics::AtomicU64>>),
+    H(metrics_util::registry::Generational<std::sync::Arc<metrics_util::storage::AtomicBucket<f64>>>),
 }
 
 #[derive(Clone, Debug)]
@@ -157,9 +168,75 @@ fn run_direct(p: &Program, variant: &mut dyn FnMut(usize) -> usize, st: &mut Sta
     let (clock, mock) = Clock::mock();
     let reg: Reg = Registry::new(GenerationalStorage::new(AtomicStorage));
     let rec: Recency<Key> = Recency::new(clock.clone(), mask_of(&p.mask), p.timeout.map(Duration::from_millis));
+    let slots: std::cell::RefCell<std::collections::HashMap<u32, (char, u32, Held)>> = Default::default();
     for op in &p.ops {
         let r = catch_unwind(AssertUnwindSafe(|| -> Vec<Value> {
             match op {
+                Op::Remove(kind, k) => {
+                    let key = key_of(*k);
+                    let retain = variant(2) == 1;
+                    let before = series_state(&reg, *kind, &key).is_some();
+                    let existed = if retain {
+                        match kind {
+                            'c' => reg.retain_counters(|kk, _| kk != &key),
+                            'g' => reg.retain_gauges(|kk, _| kk != &key),
+                            _ => reg.retain_histograms(|kk, _| kk != &key),
+                        }
+                        before
+                    } else {
+                        match kind {
+                            'c' => reg.delete_counter(&key),
+                            'g' => reg.delete_gauge(&key),
+                            _ => reg.delete_histogram(&key),
+                        }
+                    };
+                    vec![json!({"p": 0, "ev": "remove", "kind": kind_s(*kind), "key": k, "how": if retain { "retain" } else { "delete" }, "existed": existed})]
+                }
+                Op::Clear => {
+                    reg.clear();
+                    vec![json!({"p": 0, "ev": "clear"})]
+                }
+                Op::OSnap(ob, kind, k) => {
+                    if slots.borrow().contains_key(ob) {
+                        return vec![];
+                    }
+                    let key = key_of(*k);
+                    let h = match kind {
+                        'c' => reg.get_counter_handles().remove(&key).map(Held::C),
+                        'g' => reg.get_gauge_handles().remove(&key).map(Held::G),
+                        _ => reg.get_histogram_handles().remove(&key).map(Held::H),
+                    };
+                    match h {
+                        Some(h) => {
+                            slots.borrow_mut().insert(*ob, (*kind, *k, h));
+                            vec![json!({"p": ob, "ev": "o.snap", "ob": ob, "kind": kind_s(*kind), "key": k})]
+                        }
+                        None => vec![json!({"p": ob, "ev": "observe_missing", "kind": kind_s(*kind), "key": k})],
+                    }
+                }
+                Op::ODecide(ob) => {
+                    let (kind, k, h) = match slots.borrow_mut().remove(ob) {
+                        Some(x) => x,
+                        None => return vec![],
+                    };
+                    let key = key_of(k);
+                    let (g, keep) = match &h {
+                        Held::C(h) => {
+                            let g = h.get_generation();
+                            (gen_num(&g), rec.should_store_counter(&key, g, &reg))
+                        }
+                        Held::G(h) => {
+                            let g = h.get_generation();
+                            (gen_num(&g), rec.should_store_gauge(&key, g, &reg))
+                        }
+                        Held::H(h) => {
+                            let g = h.get_generation();
+                            (gen_num(&g), rec.should_store_histogram(&key, g, &reg))
+                        }
+                    };
+                    let present = series_state(&reg, kind, &key).is_some();
+                    vec![json!({"p": ob, "ev": "o.decide", "ob": ob, "kind": kind_s(kind), "key": k, "gen": g, "keep": keep, "present": present})]
+                }
                 Op::Register(kind, k) => {
                     let key = key_of(*k);
                     match kind {
@@ -378,7 +455,7 @@ fn run_prom(p: &Program, variant: &mut dyn FnMut(usize) -> usize, st: &mut Stats
                     mock.increment(Duration::from_millis(*d));
                     vec![json!({"p": 0, "ev": "tick", "d": d, "now": (mock.value() / 1_000_000) as i64, "sub": (mock.value() % 1_000_000) as i64})]
                 }
-                Op::Render | Op::Sweep | Op::Snap | Op::Observe(..) => {
+                Op::Render | Op::Sweep | Op::Snap | Op::Observe(..) | Op::Remove(..) | Op::Clear | Op::OSnap(..) | Op::ODecide(..) => {
                     let text = quanta::with_clock(&clock, || handle.render());
                     let (types, fam, odd) = scan_render(&text);
                     vec![json!({"p": 0, "ev": "render", "types": types, "fam": fam, "odd": odd})]
@@ -440,9 +517,27 @@ fn random_program(rng: &mut rand::rngs::StdRng, mode: &str) -> Program {
             if prom { Op::Render } else { Op::Observe(kind, key, None) }
         } else if x < 90 {
             if prom { Op::Render } else { Op::Sweep }
-        } else if x < 97 {
+        } else if x < 95 {
             Op::Register(kind, key)
-        } else if prom { Op::Render } else { Op::Snap });
+        } else if prom {
+            Op::Render
+        } else if x < 97 {
+            Op::Snap
+        } else {
+            Op::Clear
+        });
+        if !prom {
+            // registry-side removals and an overlapping observer (not expressible through the exporter)
+            let y = rng.random_range(0..100);
+            let (kind, key) = series[rng.random_range(0..series.len())];
+            if y < 9 {
+                ops.push(Op::Remove(kind, key));
+            } else if y < 15 {
+                ops.push(Op::OSnap(rng.random_range(1..=2u32), kind, key));
+            } else if y < 23 {
+                ops.push(Op::ODecide(rng.random_range(1..=2u32)));
+            }
+        }
     }
     Program { prom, mask, timeout, ops }
 }
@@ -463,6 +558,10 @@ fn parse_program(v: &Value) -> Program {
             "render" => {
                 if prom { Op::Render } else { Op::Sweep }
             }
+            "remove" => Op::Remove(chr(&o[1]), o[2].as_u64().unwrap_or(0) as u32),
+            "clear" => Op::Clear,
+            "osnap" => Op::OSnap(o[1].as_u64().unwrap_or(1) as u32, chr(&o[2]), o[3].as_u64().unwrap_or(0) as u32),
+            "odecide" => Op::ODecide(o[1].as_u64().unwrap_or(1) as u32),
             _ => Op::Snap,
         });
     }
